@@ -1,5 +1,5 @@
-//! Standalone reproduction (reference only; build by copying into a bin crate that depends on
-//! /repo/parquet with feature "arrow" and on arrow-array / arrow-schema / bytes).
+//! Standalone reproduction: copy into a bin crate depending on /repo/parquet (feature "arrow"),
+//! arrow-array, arrow-schema and bytes; or run `vk-pqread REPRO-push-no-offset-index`.
 //!
 //! A file written with `set_offset_index_disabled(true)` still carries a column index. When the
 //! metadata is loaded with `PageIndexPolicy::Optional`, the push decoder (and therefore the async
@@ -16,7 +16,7 @@ use parquet::file::metadata::PageIndexPolicy;
 use parquet::file::properties::WriterProperties;
 use std::sync::Arc;
 
-fn main() {
+pub fn main() {
     let schema = Arc::new(Schema::new(vec![Field::new("a", DataType::Int32, false)]));
     let batch = RecordBatch::try_new(schema.clone(), vec![Arc::new(Int32Array::from((0..8).collect::<Vec<i32>>()))]).unwrap();
     let props = WriterProperties::builder().set_offset_index_disabled(true).build();
